@@ -158,6 +158,19 @@ def check_execstack_cfg(ev, seen, cfg):
                    "object %s built from a .S file has no .note.GNU-stack section (forces an executable stack)%s" % (o, tagc), seen)
         elif "X" in m.group(1):
             record(ev, "execstack:object-note-X", {"kind": "elf", "object": o}, "object %s requests an executable stack" % o, seen)
+        # symbol attributes: every global the assembly object defines in its code section is an entry point called from C,
+        # and the ELF gABI ties PLT / canonical-address treatment (function pointers taken in a non-PIC executable against
+        # libascon.so) to STT_FUNC
+        rc, symtab = sh(["readelf", "-sW", os.path.join(tmp, o)])
+        for line in symtab.splitlines():
+            f = line.split()
+            if len(f) >= 8 and f[0].rstrip(":").isdigit() and f[4] == "GLOBAL":
+                if f[6] == "UND":
+                    continue        # the masked word routines call the random source: references out of the object are fine
+                if f[3] != "FUNC":
+                    record(ev, "elf:not-a-function:" + o, {"kind": "elf", "object": o, "config": cfg.name, "symbol": f[7], "type": f[3]},
+                           "global %s in %s is %s, not a function symbol (no PLT / canonical address: a function pointer taken in a non-PIC executable against libascon.so points at a data copy)%s" % (f[7], o, f[3], tagc), seen)
+                ev.classes["elf-global-symbol"] = ev.classes.get("elf-global-symbol", 0) + 1
     shutil.rmtree(tmp, ignore_errors=True)
     linked = [os.path.join(d, "src", "libascon.so"), os.path.join(d, "apps", "asconcrypt", "asconcrypt"), os.path.join(d, "apps", "asconsum", "asconsum")]
     for p in linked:
